@@ -207,12 +207,12 @@ Definition mrec_infos (gen : list (name * Z)) (m : list (name * list (name * sre
   compiled_infos gen (map (fun kr => (fst kr, map (fun nr => (fst nr, sres_z (snd nr))) (snd kr))) m).
 
 (* the way the algorithms use them: for each generation, logbook.record(id=g, **mstats.compile(pop_g)) *)
-Fixpoint run_gens (m : mstats (list Z) Z sres) (idname : name) (g : nat) (pops : list (list (list Z))) (s : state)
-  : state * list op :=
+Fixpoint run_gens (m : mstats (list Z) Z sres) (idname : name) (g : nat)
+         (pops : list (list (name * Z) * list (list Z))) (s : state) : state * list op :=
   match pops with
   | [] => (s, [])
-  | data :: r =>
-      let o := ORecord (mrec_infos [(idname, Z.of_nat g)] (ms_compile m data)) in
+  | (extra, data) :: r =>
+      let o := ORecord (mrec_infos ((idname, Z.of_nat g) :: extra) (ms_compile m data)) in
       let (s', ops) := run_gens m idname (S g) r (fst (step s o)) in
       (s', o :: ops)
   end.
@@ -228,7 +228,8 @@ Inductive case :=
 | CStats (key : keyf) (ops : list sop) (obs : list (list (name * sres))) (fields : list name)
 | CMulti (keys : list (name * keyf)) (ops : list sop)
          (obs : list (list (name * list (name * sres)))) (fields : list (name * list name))
-| CStatsLog (idname : name) (keys : list (name * keyf)) (regs : list sop) (pops : list (list (list Z))) (fin : lb).
+| CStatsLog (idname : name) (keys : list (name * keyf)) (regs : list sop)
+            (pops : list (list (name * Z) * list (list Z))) (fin : lb).   (* per generation: extra scalar fields, population *)
 
 Definition check (c : case) : bool :=
   match c with
